@@ -182,6 +182,14 @@ def extract_params(units):
                         if c['k'] == 'call' and callee_name(c) in ('get', 'get_child') and call_object(c) is not None and is_ref_to(call_object(c), pd):
                             key = first_str(c['a'][0]) if c.get('a') else None
                             got = (key, 'child' if callee_name(c) == 'get_child' else 'value')
+                            if callee_name(c) == 'get' and len(c.get('a', [])) == 2:
+                                dflt = unwrap(c['a'][1])
+                                # `params().m` (AMGCL_PARAMS_IMPORT_VALUE): the member of the same name of a default-constructed temporary
+                                own = dflt is not None and dflt['k'] in ('mem', 'dmem') and dflt.get('n') == m and dflt.get('b') is not None \
+                                    and unwrap(dflt['b']) is not None and unwrap(dflt['b'])['k'] not in ('ref', 'this', 'mem', 'dmem', 'lit')
+                                if not hasattr(pf, 'import_defaults'):
+                                    pf.import_defaults = {}
+                                pf.import_defaults[m] = (own, show(c['a'][1])[:60], f.where(c))
                             break
                     if got:
                         pf.imports[m] = got
@@ -232,6 +240,13 @@ def rule_A(ck, facts):
     ck.rule('A1.field-imported', 'every data member of a params struct is initialised in the property-tree constructor from the key of its own name (payload fields excepted by name)', FLOORS[ck.tier]['A1'])
     ck.rule('A2.check-list', 'the check_params list(s) contain exactly the keys the struct (with its bases / derived structs) imports', FLOORS[ck.tier]['A2'])
     ck.rule('A3.export', 'get() writes back every imported value/child member under the same key with the same kind, exporting the member itself, and nothing else', FLOORS[ck.tier]['A3'])
+    ck.rule('A4.default-is-own-member', 'the default of every value import p.get("name", <default>) is the member of the same name of a default-constructed params object: a tree '
+                                        'without the key configures exactly what the compile-time default constructor does (for every value type - the defaults may depend on it)', 80)
+    for q, pf in facts.items():
+        for m, (own, txt, where) in sorted(getattr(pf, 'import_defaults', {}).items()):
+            ck.ob('A4.default-is-own-member', '%s|%s' % (q, m), where, own, '' if own else
+                  'member `%s` is imported with the default `%s` instead of params().%s: when the key is absent the run-time configuration differs from the compile-time default '
+                  'wherever the default constructor computes another value (e.g. per value type)' % (m, txt, m))
     derived = {}
     for q, pf in facts.items():
         for b in pf.bases:
